@@ -240,8 +240,8 @@ class RiemannGenEOS(SetupRiemannProblem):
       # Create rarefaction and shock [p, r, u] values as P-U data.
       integ_ps_left,  rls, uls = r_int_call([rl, ul, pl], [gl, -1], 0., self)
       integ_ps_right, rrs, urs = r_int_call([rr, ur, pr], [gr,  1], 0., self)
-      shock_ps_left,  rlx, ulx = match_shocks(pmax, pl, rl, ul, gl, self)
-      shock_ps_right, rrx, urx = match_shocks(pmax, pr, rr, ur, gr, self)
+      shock_ps_left,  rlx, ulx = match_shocks(pmax, pl, rl, ul, gl, self, -1)
+      shock_ps_right, rrx, urx = match_shocks(pmax, pr, rr, ur, gr, self,  1)
 
       # Splice p-u rarefaction and shock values for left & right states.
       ps_left_splice  = append(integ_ps_left,  append(pl, shock_ps_left))
@@ -277,7 +277,7 @@ class RiemannGenEOS(SetupRiemannProblem):
         ux1 = interp(px, shock_ps_left, ulx)
         ax1 = sound_speed(px, rx1, gl, self)
         ps_left, rs_left, us_left = px, rx1, ux1
-        Vregs.append(shock_speed(px, rx1, pl, rl, ul, self))
+        Vregs.append(shock_speed(px, rx1, pl, rl, ul, self, -1))
 
       Vregs.append(ux1)
 
@@ -297,7 +297,7 @@ class RiemannGenEOS(SetupRiemannProblem):
         ux2 = interp(px, shock_ps_right, urx)
         ax2 = sound_speed(px, rx2, gr, self)
         ps_right, rs_right, us_right = px, rx2, ux2
-        Vregs.append(shock_speed(px, rx2, pr, rr, ur, self))
+        Vregs.append(shock_speed(px, rx2, pr, rr, ur, self,  1))
       
       Vregs = array(Vregs)
       ps_left = append(append(pl, ps_left), px)
